@@ -120,7 +120,22 @@ func build(c *Check, scratch string) (*instr.Census, string) {
 		die2("cannot write overlay: %v", err)
 	}
 	bin := filepath.Join(scratch, "check.test")
-	cmd := exec.Command(goBin, "test", "-c", "-overlay", ovPath, "-o", bin, "./"+c.Pkg)
+	args := []string{"test", "-c", "-overlay", ovPath, "-o", bin}
+	if repoRoot != "/repo" {
+		// a tree elsewhere (scratch worktree): same module file with the replace
+		// directives pointing at that tree
+		mod, err := os.ReadFile(filepath.Join(verifRoot, "h", "go.mod"))
+		if err != nil {
+			die2("go.mod: %v", err)
+		}
+		mod = bytes.ReplaceAll(mod, []byte("=> /repo/"), []byte("=> "+repoRoot+"/"))
+		os.WriteFile(filepath.Join(scratch, "go.mod"), mod, 0o644)
+		sum, _ := os.ReadFile(filepath.Join(verifRoot, "h", "go.sum"))
+		os.WriteFile(filepath.Join(scratch, "go.sum"), sum, 0o644)
+		args = append(args, "-modfile", filepath.Join(scratch, "go.mod"))
+	}
+	args = append(args, "./"+c.Pkg)
+	cmd := exec.Command(goBin, args...)
 	cmd.Dir = filepath.Join(verifRoot, "h")
 	cmd.Env = goEnv()
 	outb, err := cmd.CombinedOutput()
